@@ -305,6 +305,40 @@ func c09Run(c *core.Ctx) *core.Result {
 		r.Violate("walk-set", "SubDirFS walk reported %d entries, want %d", len(got4), off)
 	}
 	r.Count("subdirfs_walks", 1)
+
+	// 5. a sub-target below one of the sub-roots: like every FS, the walk
+	// starts at the target (the sub-root above it is not part of it)
+	if len(snap.Entries) > 0 && len(r.Viols) == 0 {
+		nm := core.Pick(c.R, sortedNames)
+		tg := core.Pick(c.R, snap.Entries)
+		var want5 []tree.Entry
+		for _, e := range snap.Entries {
+			if e.Path == tg.Path || strings.HasPrefix(e.Path, tg.Path+"/") {
+				want5 = append(want5, e)
+			}
+		}
+		sub := &tree.Tree{Entries: make([]tree.Entry, len(want5))}
+		for i, e := range want5 {
+			sub.Entries[i] = e.Clone()
+		}
+		regroup(sub)
+		got5, err := walkStats(sfs, nm+"/"+tg.Path)
+		if err != nil {
+			r.Violate("walk-error", "SubDirFS walk of sub-target %q failed: %v", nm+"/"+tg.Path, err)
+		} else {
+			exp5 := prefixed(sub.Entries, nm, tree.Entry{})[1:]
+			if len(got5) != len(exp5) {
+				var ps []string
+				for _, g := range got5 {
+					ps = append(ps, g.Path)
+				}
+				r.Violate("walk-set", "SubDirFS walk of sub-target %q reported %d entries %q, want the %d entries at and below the target", nm+"/"+tg.Path, len(got5), trunc(ps, 6), len(exp5))
+			} else {
+				c09Compare(r, fmt.Sprintf("SubDirFS.Walk(%q)", nm+"/"+tg.Path), exp5, got5, nm)
+			}
+			r.Count("subdirfs_subtarget_walks", 1)
+		}
+	}
 	return r
 }
 
